@@ -131,16 +131,19 @@ PROPS = {
     ),
     "C03": dict(
         functions=[DS + "AbstractDissimilarity._compute_alignment_disorders", DS + "AbstractDissimilarity._build_arrays_continuum",
+                   DS + "AbstractDissimilarity._build_arrays_alignment", AL + "Alignment.annotators", AL + "Alignment.categories#attached",
                    CT + "Continuum.avg_num_annotations_per_annotator", CT + "Continuum.num_units", CT + "Continuum.num_annotators"]
                   + ALIGN_CTORS + [AL + "SoftAlignment.__init__", CT + "Continuum.get_best_alignment", CT + "Continuum.get_best_soft_alignment"],
         oracles=[AL + "Alignment.compute_disorder"],
         bounded=[dict(oracle=AL + "Alignment.compute_disorder",
-                      what="Alignment.compute_disorder / .disorder / _build_arrays_alignment / UnitaryAlignment.compute_disorder are not under "
-                           "contract yet: best, soft and hand-built alignments (attached or not, annotators listed in shuffled order) of random "
+                      what="_build_arrays_alignment is proved (each slot encoded at the RANK of its annotator, whatever its position: D5 at the "
+                           "encoding level); Alignment.compute_disorder / .disorder / UnitaryAlignment.compute_disorder and the composition "
+                           "kernel o encoding are not under contract: best, soft and hand-built alignments (attached or not, annotators listed in shuffled order) of random "
                            "grid continua with 2..5 annotators, every built-in dissimilarity family: cached, per-unitary and recomputed "
                            "disorders against the definition written from the statement")],
         design_ref="DESIGN.md section 4 C03, appendix A.3",
-        not_decided=["D2/D3/D5 (Alignment.compute_disorder, Alignment.disorder, order independence of _build_arrays_alignment) are bounded only"],
+        not_decided=["D2/D3 (Alignment.compute_disorder, Alignment.disorder) are bounded only; D5: the encoding is proved independent of the slot order "
+                     "(rank-indexed), that the disorder recomputed from it equals the carried one is bounded"],
         trusted=S_COMMON + T_SOLVER,
     ),
     "C04": dict(
